@@ -137,4 +137,43 @@ theorem matchRange_eq_some (sep s : Str) (i j : Nat) (hsep : ∃ c rest, sep = c
     have e4 : d₂.isEmpty = false := by simpa using h2
     simp [e1, e2, e4, h4]
 
+/-! ## `find_unusual_characters` -/
+
+/-- `findall`: a character is returned iff it stands at a position where some alternative matches, the neighbours being the
+    characters directly before / after it in the string (`prev` before the first one) -/
+theorem mem_findAllFrom_iff (word : Nat → Bool) (alts : List Alt) : ∀ (s : Str) (prev : Option Nat) (c : Nat),
+    c ∈ findAllFrom word alts prev s ↔
+      ∃ a b, s = a ++ c :: b ∧ alts.any (altMatch word ((a.getLast?).or prev) c b.head?) = true
+  | [], _, _ => by simp [findAllFrom]
+  | x :: rest, prev, c => by
+    have ih := mem_findAllFrom_iff word alts rest (some x) c
+    have hstep : c ∈ findAllFrom word alts prev (x :: rest) ↔
+        (c = x ∧ alts.any (altMatch word prev x rest.head?) = true) ∨ c ∈ findAllFrom word alts (some x) rest := by
+      simp only [findAllFrom]
+      by_cases hit : alts.any (altMatch word prev x rest.head?) = true
+      · simp [hit]
+      · simp [hit]
+    rw [hstep, ih]
+    constructor
+    · rintro (⟨rfl, h⟩ | ⟨a, b, rfl, h⟩)
+      · exact ⟨[], rest, rfl, by simpa using h⟩
+      · refine ⟨x :: a, b, rfl, ?_⟩
+        have : ((x :: a).getLast?).or prev = (a.getLast?).or (some x) := by
+          rw [List.getLast?_cons]; cases a.getLast? <;> simp
+        rw [this]; exact h
+    · rintro ⟨a, b, hs, h⟩
+      cases a with
+      | nil =>
+        simp only [List.nil_append, List.cons.injEq] at hs
+        obtain ⟨rfl, rfl⟩ := hs
+        exact Or.inl ⟨rfl, by simpa using h⟩
+      | cons y a =>
+        simp only [List.cons_append, List.cons.injEq] at hs
+        obtain ⟨rfl, rfl⟩ := hs
+        right
+        refine ⟨a, b, rfl, ?_⟩
+        have : ((x :: a).getLast?).or prev = (a.getLast?).or (some x) := by
+          rw [List.getLast?_cons]; cases a.getLast? <;> simp
+        rw [← this]; exact h
+
 end I18n.Msg
